@@ -128,3 +128,97 @@ def first(v):
 @native
 def nonempty_list(v):
     return isinstance(v, list) and len(v) > 0
+
+
+# ----------------------------------------------------------------------------- C20: configuration keys
+CONFIG_KEYS = ["announce", "tracker", "web-seed", "http-seed", "private", "source", "comment", "piece-length",
+               "meta-version", "out", "align"]
+CONFIG_LIST_KEYS = ("announce", "tracker", "web-seed", "http-seed")
+CONFIG_RAW_KEYS = ("piece-length", "meta-version", "out")
+_CLI = {}
+
+
+def cli_table():
+    if "t" not in _CLI:
+        from pyvc.source import Repo
+        from pyvc import clitable
+        _CLI["t"] = clitable.extract(Repo())
+    return _CLI["t"]
+
+
+@native
+def config_kw(k):
+    """the keyword a configuration key must land in: the dest of the create flag --<key> in cli.py"""
+    from pyvc import clitable
+    e = clitable.flag_dest(cli_table(), "create_parser", k)
+    return e["dest"] if e else None
+
+
+@native
+def config_conv(k, v):
+    if k in CONFIG_LIST_KEYS:
+        return [i for i in v.split("\n") if i]
+    if k in CONFIG_RAW_KEYS:
+        return v
+    if v.lower() == "true":
+        return True
+    if v.lower() == "false":
+        return False
+    return v
+
+
+@native
+def config_target_before(cfg, t, i):
+    ks = list(cfg.keys())
+    return any(c in cfg and ks.index(c) < i and config_kw(c) == t for c in CONFIG_KEYS)
+
+
+@native
+def dict_len(d):
+    return len(d)
+
+
+@native
+def truthy(v):
+    return bool(v)
+
+
+@native
+def is_int(v):
+    return isinstance(v, int) and not isinstance(v, bool)
+
+
+@native
+def is_none(v):
+    return v is None
+
+
+@native
+def as_int(v):
+    return v
+
+
+@native
+def as_str(v):
+    return v
+
+
+@native
+def last(v):
+    return v[-1]
+
+
+@native
+def init(v):
+    return v[:-1]
+
+
+@native
+def list_len(v):
+    return len(v)
+
+
+@native
+def basename_abspath(p):
+    import os
+    return os.path.basename(os.path.abspath(p))
